@@ -28,3 +28,11 @@ uniffi::setup_scaffolding!();
 
 #[cfg(all(test, target_arch = "wasm32"))]
 wasm_bindgen_test::wasm_bindgen_test_configure!(run_in_browser);
+
+/// Verification hooks: public paths to crate-private items for an external conformance
+/// harness. Nothing here changes behaviour and nothing is compiled unless
+/// `--cfg eigerco_lumina_verif` is passed.
+#[cfg(eigerco_lumina_verif)]
+pub mod verif {
+    pub use crate::abci_proofs::{ProofError, verif_verify_membership};
+}
